@@ -32,7 +32,7 @@ ExtKinds == {"ext_str", "ext_str_env", "ext_env_unset", "ext_str_file", "ext_str
              "ext_code_syntax_used", "ext_unknown_used", "ext_dup", "ext_two", "ext_str_empty"}
 TlaKinds == {"tla_str", "tla_str_env", "tla_env_unset", "tla_code", "tla_files", "tla_override",
              "tla_only_y", "tla_unknown", "tla_dup", "tla_lazy_unused", "tla_fail_used",
-             "tla_syntax_unused", "tla_str_empty"}
+             "tla_syntax_unused", "tla_str_empty", "tla_ext_same", "tla_ext_same_code"}
 MiscKinds == {"stack_ok", "stack_bad", "trace_bad", "unknown_flag"}
 Kinds == {"none"} \cup ExtKinds \cup TlaKinds \cup MiscKinds
 KindSeq == <<"none", "ext_str", "ext_str_env", "ext_env_unset", "ext_str_file", "ext_str_file_missing",
@@ -42,7 +42,7 @@ KindSeq == <<"none", "ext_str", "ext_str_env", "ext_env_unset", "ext_str_file", 
              "tla_str", "tla_str_env", "tla_env_unset", "tla_code", "tla_files", "tla_override",
              "tla_only_y", "tla_unknown", "tla_dup", "tla_lazy_unused", "tla_fail_used",
              "tla_syntax_unused", "stack_ok", "stack_bad", "trace_bad", "unknown_flag",
-             "ext_str_empty", "tla_str_empty">>
+             "ext_str_empty", "tla_str_empty", "tla_ext_same", "tla_ext_same_code">>
 ASSUME SetOf(KindSeq) = Kinds
 
 FaultSeq == <<"none", "input_missing", "input_is_dir", "input_dangling", "stdin_closed",
